@@ -162,29 +162,34 @@ def rule_cg_pair(ctx, R):
             R.finding(b.fn, "pel-pair:one-sided", "%s %s: XPENDING's total, bounds and per-consumer view disagree" % (nm, bad), b.loc())
     # group level: per-consumer counter and total move with the PEL
     g = ctx.prog.need(CG + "add_pending")
-    adds = [i for i, t in g.calls() if callee(t) == PEL + "add_entry"]
-    tot = total_updates(g); pc = pending_count_updates(g)
+    adds = [i for _, i, t in shared.deep_calls(ctx, g) if callee(t) == PEL + "add_entry"]
+    tot = _tree(ctx, g, total_updates); pc = _tree(ctx, g, pending_count_updates)
     R.inst(g.fn, "group-counters", {"pel_adds": len(adds), "total_pending_updates": len(tot), "consumer_pending_count_updates": len(pc)})
     if not (adds and tot and pc):
         R.finding(g.fn, "group-counters:not-in-step", "add_pending does not update the PEL, the consumer's pending_count and total_pending together", g.loc())
     a = ctx.prog.need(CG + "acknowledge")
     rem = [i for _, i, t in shared.deep_calls(ctx, a) if callee(t) == PEL + "remove_entry"]
-    tot = total_updates(a); pc = pending_count_updates(a)
+    tot = _tree(ctx, a, total_updates); pc = _tree(ctx, a, pending_count_updates)
     R.inst(a.fn, "group-counters", {"pel_removes": len(rem), "total_pending_updates": len(tot), "consumer_pending_count_updates": len(pc)})
     if not (rem and tot and pc):
         R.finding(a.fn, "group-counters:not-in-step", "acknowledge does not update the PEL, the consumer's pending_count and total_pending together", a.loc())
     c = ctx.prog.need(CG + "claim_messages")
-    tr = [i for i, t in c.calls() if callee(t) == PEL + "transfer_ownership"]
-    pc = pending_count_updates(c)
+    tr = [i for _, i, t in shared.deep_calls(ctx, c) if callee(t) == PEL + "transfer_ownership"]
+    pc = _tree(ctx, c, pending_count_updates)
     R.inst(c.fn, "group-counters", {"transfers": len(tr), "consumer_pending_count_updates": len(pc)})
     if not tr or len(pc) < 2:
         R.finding(c.fn, "group-counters:not-in-step", "claim_messages does not move the entry and both consumers' pending_count together", c.loc())
     d = ctx.prog.need(CG + "delete_consumer")
-    rc = [i for i, t in d.calls() if callee(t) == PEL + "remove_consumer_entries"]
-    tot = total_updates(d)
+    rc = [i for _, i, t in shared.deep_calls(ctx, d) if callee(t) == PEL + "remove_consumer_entries"]
+    tot = _tree(ctx, d, total_updates)
     R.inst(d.fn, "group-counters", {"pel_consumer_removal": len(rc), "total_pending_updates": len(tot)})
     if not (rc and tot):
         R.finding(d.fn, "group-counters:not-in-step", "delete_consumer does not drop the consumer's pending entries and total_pending together", d.loc())
+
+
+def _tree(ctx, b, f):
+    """f's sites in b and in the closures b drives (`.inspect(|e| ..)`, `.for_each(..)`)"""
+    return [x for body in shared.closure_tree(ctx, b) for x in f(body)]
 
 
 def total_updates(b):
